@@ -47,6 +47,8 @@ pub struct DocLineRec {
     /// position right after `///`
     pub text_start: Pos,
     pub text_end: Pos,
+    /// end of the line before its '\n' (after a '\r' if the line ends in CRLF)
+    pub line_end: Pos,
 }
 
 #[derive(Clone, Debug, Default)]
@@ -515,10 +517,12 @@ impl<'l, 'a> W<'l, 'a> {
                 self.push_raw(&pre.doc[di]);
                 let text_end = (self.row, self.col);
                 self.newline();
+                let line_end = if self.out.ends_with("\r\n") { (text_end.0, text_end.1 + 1) } else { text_end };
                 docs.push(DocLineRec {
                     slashes,
                     text_start,
                     text_end,
+                    line_end,
                 });
                 // a doc comment behaves like a token boundary: nothing needs separating after a newline
                 self.prev = Cls::Other;
